@@ -398,12 +398,45 @@ func (fx *respFixture) judge(s *Scenario, failed bool, st *RespStats, report fun
 			report("insertion/into-file-not-produced/accepted", "an insertion point into a file that no plugin produced in this run was accepted")
 		}
 	}
+	ok, all, entries := fx.judgeState(s, failed, exp.Produced, st, report)
+	if all == nil {
+		return false
+	}
+	// non-vacuity: verify the positive effect on success
+	if !failed {
+		if normal, valid := validName(probeEntry.Name); valid && isArchive(outAbs(fx.base, probe.Out)) {
+			if got, exists := entries[outAbs(fx.base, probe.Out)][normal]; exists && probeEntry.InsertionPoint == "" && got == probeEntry.Content {
+				st.ArchiveEntryWritten++
+			}
+		}
+		if normal, valid := validName(probeEntry.Name); valid && !isArchive(outAbs(fx.base, probe.Out)) {
+			got, exists := all[entryLocation(fx.base, &probe, normal)]
+			if probeEntry.InsertionPoint == "" {
+				if exists && got == probeEntry.Content {
+					st.PlainWritten++
+				}
+			} else if exists && probeEntry.Content != "" {
+				if i, j := strings.Index(got, strings.TrimSuffix(probeEntry.Content, "\n")), strings.Index(got, strings.TrimSuffix(markerLine, "\n")); i >= 0 && j > i {
+					st.InsertionApplied++
+				}
+			} else if exists && probeEntry.Content == "" {
+				st.InsertionApplied++
+			}
+		}
+	}
+	return ok
+}
+
+// judgeState applies the state oracles (containment, previous-run files, archive entry names) to the tree after a
+// run of the plugins s.Plugins; produced are the locations the model says were produced in the run. It returns the
+// snapshot of the whole tree and the entries of every readable archive (nil, nil after a harness problem).
+func (fx *respFixture) judgeState(s *Scenario, failed bool, produced map[string]bool, st *RespStats, report func(sig, what string)) (bool, map[string]string, map[string]map[string]string) {
 	ok := true
 	// S1: everything outside the out locations is unchanged
 	after, err := fx.snapshot(false)
 	if err != nil {
 		report("harness/snapshot", err.Error())
-		return false
+		return false, nil, nil
 	}
 	if d := diffSnap(fx.outside, after); d != "" {
 		report("containment/outside-out-dir-changed", "files outside every plugin's output location changed: "+strings.ReplaceAll(d, fx.root, "<root>"))
@@ -413,7 +446,7 @@ func (fx *respFixture) judge(s *Scenario, failed bool, st *RespStats, report fun
 	all, err := fx.snapshot(true)
 	if err != nil {
 		report("harness/snapshot", err.Error())
-		return false
+		return false, nil, nil
 	}
 	for _, p := range bufx.SortedKeys(all) {
 		content := all[p]
@@ -457,7 +490,7 @@ func (fx *respFixture) judge(s *Scenario, failed bool, st *RespStats, report fun
 	}
 	for rel, content := range s.Pre {
 		p := filepath.Join(fx.base, rel)
-		if exp.Produced[p] {
+		if produced[p] {
 			continue
 		}
 		// only a modification in place counts (a plain output replacing the file is not an insertion)
@@ -490,29 +523,7 @@ func (fx *respFixture) judge(s *Scenario, failed bool, st *RespStats, report fun
 		}
 		zr.Close()
 	}
-	// non-vacuity: verify the positive effect on success
-	if !failed {
-		if normal, valid := validName(probeEntry.Name); valid && isArchive(outAbs(fx.base, probe.Out)) {
-			if got, exists := entries[outAbs(fx.base, probe.Out)][normal]; exists && probeEntry.InsertionPoint == "" && got == probeEntry.Content {
-				st.ArchiveEntryWritten++
-			}
-		}
-		if normal, valid := validName(probeEntry.Name); valid && !isArchive(outAbs(fx.base, probe.Out)) {
-			got, exists := all[entryLocation(fx.base, &probe, normal)]
-			if probeEntry.InsertionPoint == "" {
-				if exists && got == probeEntry.Content {
-					st.PlainWritten++
-				}
-			} else if exists && probeEntry.Content != "" {
-				if i, j := strings.Index(got, strings.TrimSuffix(probeEntry.Content, "\n")), strings.Index(got, strings.TrimSuffix(markerLine, "\n")); i >= 0 && j > i {
-					st.InsertionApplied++
-				}
-			} else if exists && probeEntry.Content == "" {
-				st.InsertionApplied++
-			}
-		}
-	}
-	return ok
+	return ok, all, entries
 }
 
 // archiveEntries lists a zip/jar held in memory: entry name -> content.
